@@ -12,7 +12,7 @@
 (* Further clauses on the same record: EmissionShape (C04), emitter        *)
 (* count = max height (C03), reported score = 0 (C02).                     *)
 (***************************************************************************)
-EXTENDS CircuitRun, TLC, Json, IOUtils
+EXTENDS CircuitRun, Graphs, TLC, Json, IOUtils
 
 Traces == JsonDeserialize(IOEnv.TRACE_FILE)
 
@@ -23,7 +23,12 @@ Circ(t) == Traces[t].circ
 Order(t) == Traces[t].order
 Target(t) == Traces[t].target            \* [n, edges] on the photons, vertex v = photon v
 
-EdgeSet(tg) == {{tg.edges[j][1], tg.edges[j][2]} : j \in DOMAIN tg.edges}
+\* the target, with its vertices renamed by the record's relabel map when it has one (alternate-target results):
+\* vertex v becomes map[v], so the edge set is {map[u], map[v]} for every target edge {u, v}
+EdgeSet(tg) ==
+  IF Len(tg.map) = 0 THEN {{tg.edges[j][1], tg.edges[j][2]} : j \in DOMAIN tg.edges}
+  ELSE {{tg.map[tg.edges[j][1]], tg.map[tg.edges[j][2]]} : j \in DOMAIN tg.edges}
+MapOK(tg) == Len(tg.map) = 0 \/ IsPerm(tg.n, tg.map)
 
 \* `order` is a linearisation of the circuit: a permutation of the ops that respects every wire
 OrderConsistent(c, ord) ==
@@ -64,6 +69,7 @@ StaticClause(t) ==
   LET c == Circ(t) tg == Target(t) IN
   IF Traces[t].err # "" THEN "SolverRaised"
   ELSE IF c.np # tg.n THEN "PhotonCount"
+  ELSE IF ~MapOK(tg) THEN "MapIsPerm"
   ELSE IF ~OrderConsistent(c, Order(t)) THEN "OrderOK"
   ELSE IF Traces[t].check_shape /\ ~EmissionShape(c) THEN "EmissionShape"
   ELSE IF Traces[t].check_shape /\ ~EmittedOnce(c) THEN "EmittedOnce"
